@@ -447,6 +447,50 @@ prc[b] : lin 1 = x : lin 1 <- new (f.l<self>); wait x; print done; close self`},
 prc[a] : U = s <- shift self; print up; close s
 prc[f] : U = fwd self a
 prc[b] : lin 1 = l : lin 1 <- new cast f<self>; wait l; print fin; close self`},
+	{name: "m35", contraction: true,
+		prints: []string{"once", "fin"},
+		before: [][2]string{{"once", "fin"}},
+		src: `prc[x] : rep 1 = print once; close self
+prc[b] : lin 1 = <u, v> <- split x; f : rep 1 <- new fwd self u; wait f; wait v; print fin; close self`},
+	{name: "m36", contraction: true,
+		prints: []string{"once", "fin"},
+		before: [][2]string{{"once", "fin"}},
+		src: `prc[x] : rep 1 = print once; close self
+prc[b] : lin 1 = <u, v> <- split x; drop u; <p, q> <- split v; wait p; wait q; print fin; close self`},
+	{name: "m37", contraction: true,
+		prints: []string{"made", "made", "fin"},
+		before: [][2]string{},
+		src: `prc[a, b] : rep 1 = print made; close self
+prc[c] : lin 1 = <u, v> <- split a; wait u; wait v; wait b; print fin; close self`},
+	{name: "m38", contraction: true,
+		prints: []string{"served", "served", "served", "fin"},
+		before: [][2]string{},
+		src: `type F = rep 1 -* 1
+let mk() : rep 1 = close self
+prc[x] : F = <p, q> <- recv self; wait p; print served; close q
+prc[b] : lin 1 = <c, d> <- split x; <e, g> <- split c;
+   u <- new mk(); v <- new mk(); w <- new mk();
+   r1 : rep 1 <- new (send d<u, self>); r2 : rep 1 <- new (send e<v, self>); r3 : rep 1 <- new (send g<w, self>);
+   wait r1; wait r2; wait r3; print fin; close self`},
+	{name: "m39", contraction: false,
+		prints: []string{"made", "dropped"},
+		before: [][2]string{},
+		src: `prc[a] : aff 1 = print made; close self
+prc[f] : aff 1 = fwd self a
+prc[b] : lin 1 = drop f; print dropped; close self`},
+	{name: "m40", contraction: true,
+		prints: []string{"fin"},
+		before: [][2]string{},
+		src: `type F = rep 1 -* 1
+prc[x] : F = <p, q> <- recv self; wait p; print never; close q
+prc[b] : lin 1 = <c, d> <- split x; drop c; drop d; print fin; close self`},
+	{name: "m41", contraction: false,
+		prints: []string{"dropped"},
+		before: [][2]string{},
+		src: `type F = aff 1 -* 1
+prc[a] : F = <p, q> <- recv self; wait p; print never; close q
+prc[f] : F = fwd self a
+prc[b] : lin 1 = drop f; print dropped; close self`},
 }
 
 func orderRespected(prints []string, before [][2]string) bool {
@@ -514,9 +558,13 @@ func ZZRunMenu() {
 	if vn.Param("RESPELLED", 0) == 1 {
 		vn.Assume(runMenu[k].respelled)
 	}
+	if vn.Param("DEEP", 0) == 0 {
+		// programs whose exploration takes minutes are left to the thorough tier
+		vn.Assume(runMenu[k].name != "m38")
+	}
 	if vn.Param("LIGHT", 0) == 1 {
 		// the programs whose exploration stays small with a monitor attached
-		heavy := map[string]bool{"m11": true, "m15": true, "m16": true, "m23": true, "m24": true, "m25": true}
+		heavy := map[string]bool{"m11": true, "m15": true, "m16": true, "m23": true, "m24": true, "m25": true, "m28": true, "m31": true, "m38": true}
 		vn.Assume(!heavy[runMenu[k].name])
 	}
 	mode := process.Execution_Version(vn.Pick(vn.Param("MODES", 3)))
@@ -571,6 +619,36 @@ prc[b] : lin 1 = y <- new f(a); wait y; close self`},
 	{"y7", "C06: an up-shift from affine to linear", `type U = aff /\ lin 1
 prc[a] : U = s <- shift self; close s
 prc[b] : lin 1 = l : aff 1 <- new cast a<self>; wait l; close self`},
+	{"z1", "types differ in the left component of a product (through a forward)", `let unit() : lin 1 = close self
+prc[c] : lin 1 * 1 = u <- new unit(); v <- new unit(); send self<u, v>
+prc[b] : lin (1 * 1) * 1 = fwd self +c
+prc[d] : lin 1 = <x, y> <- recv b; <x1, x2> <- recv x; wait x1; wait x2; wait y; close self`},
+	{"z2", "types differ in the right component of a product", `let unit() : lin 1 = close self
+prc[c] : lin 1 * 1 = u <- new unit(); v <- new unit(); send self<u, v>
+prc[b] : lin 1 * (1 * 1) = fwd self +c
+prc[d] : lin 1 = <x, y> <- recv b; wait x; <y1, y2> <- recv y; wait y1; wait y2; close self`},
+	{"z3", "types differ in the argument of a function type", `let unit() : lin 1 = close self
+let pair() : lin 1 * 1 = u <- new unit(); v <- new unit(); send self<u, v>
+prc[c] : lin 1 -* 1 = <x, y> <- recv self; wait x; close y
+prc[b] : lin (1 * 1) -* 1 = fwd self -c
+prc[d] : lin 1 = p <- new pair(); r : lin 1 <- new (send b<p, self>); wait r; close self`},
+	{"z4", "types differ in the result of a function type", `let unit() : lin 1 = close self
+prc[c] : lin 1 -* 1 = <x, y> <- recv self; wait x; close y
+prc[b] : lin 1 -* (1 * 1) = fwd self -c
+prc[d] : lin 1 = u <- new unit(); r : lin 1 * 1 <- new (send b<u, self>); <r1, r2> <- recv r; wait r1; wait r2; close self`},
+	{"z5", "types differ in a branch of an internal choice", `let unit() : lin 1 = close self
+prc[c] : lin +{l : 1} = u <- new unit(); self.l<u>
+prc[b] : lin +{l : 1 * 1} = fwd self +c
+prc[d] : lin 1 = case b (l<z> => <z1, z2> <- recv z; wait z1; wait z2; close self)`},
+	{"z6", "types differ in a branch of an external choice", `prc[c] : lin &{l : 1} = case self (l<z> => close z)
+prc[b] : lin &{l : 1 * 1} = fwd self -c
+prc[d] : lin 1 = r : lin 1 * 1 <- new (b.l<self>); <r1, r2> <- recv r; wait r1; wait r2; close self`},
+	{"z7", "types differ under a down-shift", `prc[c] : lin \/ lin 1 = t : lin 1 <- new close self; cast self<t>
+prc[b] : lin \/ lin (1 * 1) = fwd self +c
+prc[d] : lin 1 = s <- shift b; <x, y> <- recv s; wait x; wait y; close self`},
+	{"z8", "types differ under an up-shift", `prc[c] : lin /\ lin 1 = s <- shift self; close s
+prc[b] : lin /\ lin (1 * 1) = fwd self -c
+prc[d] : lin 1 = l : lin 1 * 1 <- new cast b<self>; <x, y> <- recv l; wait x; wait y; close self`},
 }
 
 // ZZRunIllTyped: every program of illTypedMenu is rejected; if one is accepted it is run (in the
